@@ -199,18 +199,55 @@ func c29Gen(g *Gen, tier string, w *bufio.Writer) {
 func c29DriveAll(sc *bufio.Scanner, w *bufio.Writer) {
 	child := os.Getenv("VERIF_C29_CHILD") == "1"
 	c29Out = w
-	for sc.Scan() {
-		toks := strings.Fields(sc.Text())
-		out := safe(func() string { return c29Drive(toks) })
-		w.WriteString(out)
-		w.WriteByte('\n')
-		if child {
+	if child {
+		for sc.Scan() {
+			toks := strings.Fields(sc.Text())
+			out := safe(func() string { return c29Drive(toks) })
+			w.WriteString(out)
+			w.WriteByte('\n')
 			w.Flush()
 		}
+		return
 	}
-	for _, ch := range c29Children {
-		ch.in.Close()
-		ch.cmd.Wait()
+	// parent: read everything, run the lines of each GOMAXPROCS value on their own children (two per value, in
+	// parallel), print the results in input order
+	var lines [][]string
+	for sc.Scan() {
+		lines = append(lines, strings.Fields(sc.Text()))
+	}
+	outs := make([]string, len(lines))
+	queues := map[string][]int{}
+	for i, toks := range lines {
+		key := "-"
+		if len(toks) >= 3 && toks[0] == "json" {
+			if len(queues[toks[1]+"/0"]) > len(queues[toks[1]+"/1"]) {
+				key = toks[1] + "/1"
+			} else {
+				key = toks[1] + "/0"
+			}
+		}
+		queues[key] = append(queues[key], i)
+	}
+	var wg sync.WaitGroup
+	for key, idx := range queues {
+		wg.Add(1)
+		go func(key string, idx []int) {
+			defer wg.Done()
+			var ch *c29Child
+			for _, i := range idx {
+				toks := lines[i]
+				outs[i] = safe(func() string { return c29Dispatch(&ch, toks) })
+			}
+			if ch != nil {
+				ch.in.Close()
+				ch.cmd.Wait()
+			}
+		}(key, idx)
+	}
+	wg.Wait()
+	for _, o := range outs {
+		w.WriteString(o)
+		w.WriteByte('\n')
 	}
 }
 
@@ -221,8 +258,6 @@ type c29Child struct {
 	in  io.WriteCloser
 	out *bufio.Reader
 }
-
-var c29Children = map[int]*c29Child{}
 
 func c29StartChild(nw int) (*c29Child, error) {
 	cmd := exec.Command(os.Args[0], "drive", "C29")
@@ -242,6 +277,7 @@ func c29StartChild(nw int) (*c29Child, error) {
 	return &c29Child{cmd: cmd, in: in, out: bufio.NewReaderSize(out, 1<<20)}, nil
 }
 
+// c29Drive: in the child, execute; (the parent goes through c29DriveAll / c29Dispatch)
 func c29Drive(toks []string) string {
 	if len(toks) < 3 || toks[0] != "json" {
 		return "bad-op"
@@ -249,20 +285,34 @@ func c29Drive(toks []string) string {
 	if os.Getenv("VERIF_C29_CHILD") == "1" {
 		return c29RunOp(toks)
 	}
+	var ch *c29Child
+	out := c29Dispatch(&ch, toks)
+	if ch != nil {
+		ch.in.Close()
+		ch.cmd.Wait()
+	}
+	return out
+}
+
+// c29Dispatch sends one op to the child *pch (started on demand with GOMAXPROCS = the op's worker count)
+func c29Dispatch(pch **c29Child, toks []string) string {
+	if len(toks) < 3 || toks[0] != "json" {
+		return "bad-op"
+	}
 	nw, err := strconv.Atoi(toks[1])
 	if err != nil || nw < 1 {
 		return "bad-op"
 	}
-	ch := c29Children[nw]
+	ch := *pch
 	if ch == nil {
 		ch, err = c29StartChild(nw)
 		if err != nil {
 			return "driver-error " + err.Error()
 		}
-		c29Children[nw] = ch
+		*pch = ch
 	}
 	if _, err := io.WriteString(ch.in, strings.Join(toks, " ")+"\n"); err != nil {
-		delete(c29Children, nw)
+		*pch = nil
 		return "driver-error child-write"
 	}
 	type res struct {
@@ -277,16 +327,25 @@ func c29Drive(toks []string) string {
 	select {
 	case r := <-rc:
 		if r.err != nil {
-			delete(c29Children, nw)
+			// the child died
 			ch.cmd.Process.Kill()
 			ch.cmd.Wait()
+			*pch = nil
+			if r.s != "" {
+				return strings.TrimRight(r.s, "\n")
+			}
 			return "timeout child-died"
+		}
+		if strings.HasPrefix(r.s, "timeout") {
+			// the child answered `timeout` and exits (its pool may be wedged)
+			ch.cmd.Wait()
+			*pch = nil
 		}
 		return strings.TrimRight(r.s, "\n")
 	case <-time.After(10 * time.Minute):
 		ch.cmd.Process.Kill()
 		ch.cmd.Wait()
-		delete(c29Children, nw)
+		*pch = nil
 		return "timeout child-unresponsive"
 	}
 }
@@ -388,6 +447,17 @@ func c29Spin(us int) {
 	time.Sleep(time.Duration(us) * time.Microsecond)
 }
 
+// consumer delay: yield on every record, sleep on every 64th (time.Sleep costs ~0.1-1 ms whatever the argument)
+func c29ConsumerDelay(us, produced int) {
+	if us <= 0 {
+		return
+	}
+	runtime.Gosched()
+	if produced%64 == 0 {
+		time.Sleep(time.Duration(us*10) * time.Microsecond)
+	}
+}
+
 // splitmix-style hash for the delay hook
 func c29Mix(a, b, c uint64) uint64 {
 	z := a*0x9E3779B97F4A7C15 + b*0xBF58476D1CE4E5B9 + c*0x94D049BB133111EB + 0x1234567
@@ -473,7 +543,7 @@ func c29RunOp(toks []string) (result string) {
 			stopErr := fmt.Errorf("c29 stop")
 			produce := func(pctx execution.ProduceContext, rec execution.Record) error {
 				produced++
-				c29Spin(p.cdelayUS)
+				c29ConsumerDelay(p.cdelayUS, produced)
 				if p.pcancelAfter >= 0 && produced == p.pcancelAfter {
 					log.mu.Lock()
 					// the run id of this pipe: reverse lookup
@@ -553,7 +623,7 @@ func c29RunOp(toks []string) (result string) {
 	runDone := false
 	lastN, blockedSamples := -1, 0
 	start := time.Now()
-	tick := time.NewTicker(20 * time.Millisecond)
+	tick := time.NewTicker(2 * time.Millisecond)
 	defer tick.Stop()
 loop:
 	for {
@@ -580,7 +650,7 @@ loop:
 			n := nEvents()
 			if n == lastN && c29AllBlocked() {
 				blockedSamples++
-				if blockedSamples >= 25 { // 25 ticks = 0.5 s of a completely blocked pipeline
+				if blockedSamples >= 100 { // 100 ticks >= 0.2 s of a completely blocked pipeline
 					timedOut = true
 					break loop
 				}
